@@ -37,6 +37,44 @@ def case(rec, cfg, agent, s, op):
     return first, rec.n
 
 
+def row_runs(rec, cfg, agent):
+    """getbulk replies of six consecutive table rows (names differing in the last sub-identifier only; last arcs on both sides of
+    every base-128 length step, and deep inside the 3-, 4- and 5-octet ranges where neighbours share their leading octets), plus the
+    same rows fetched one by one with getnext: every name is rendered to the text of the name the agent sent"""
+    from checks import c02
+    out = []
+    for start in (1, 126, 127, 128, 200, 1000, 16382, 16383, 16384, 70000, 2097150, 2097152, 268435454, 436207616, 4294967290):
+        for depth2 in (1, 2):
+            base = c02.BASE + [8] * depth2
+            lay = [(base + [start + j], ("int", j)) for j in range(6)]
+            first = rec.n
+            sess = rawdrv.RawSession(rec, cfg)
+            w, exc = sess.send("getbulk", [".".join(str(x) for x in base)], maxrep=10)
+            if w is not None:
+                req = ag.Request(cfg, w)
+                sess.inject(agent.reply(cfg, req, lay))
+                sess.recv("getbulk")
+            sess.close()
+            out.append((first, rec.n, dict(s=list((".".join(str(x) for x in base) + ".%d.." % start).encode()), op="getbulk-rows", cls=0)))
+        # one row per reply: the iterator object lives across replies
+        base = c02.BASE + [9]
+        first = rec.n
+        sess = rawdrv.RawSession(rec, cfg)
+        for j in range(4):
+            if j == 0:
+                w, exc = sess.send("getnext", [".".join(str(x) for x in base)])
+            else:
+                w, exc = sess.send("getnext", iter_obj=sess.iter, names=[rc.oid_content(base + [start + j - 1])], itstart=rc.oid_content(base))
+            if w is None:
+                break
+            req = ag.Request(cfg, w)
+            sess.inject(agent.reply(cfg, req, [(base + [start + j], ("int", j))]))
+            sess.recv("getnext")
+        sess.close()
+        out.append((first, rec.n, dict(s=list((".".join(str(x) for x in base) + ".%d.. (getnext)" % start).encode()), op="getnext-rows", cls=0)))
+    return out
+
+
 def run(tier):
     chk = Check("C08", tier)
     thorough = tier == "thorough"
@@ -76,23 +114,9 @@ def run(tier):
             chk.case(("long", i, op))
     # rendering inside walks: rows whose names differ in the last sub-identifier only (a getbulk reply is rendered by one iterator),
     # asked for under text bases with the same arcs; last arcs on both sides of every base-128 length step
-    from checks import c02
-    k = 0
-    for start in (1, 126, 127, 128, 200, 1000, 16382, 16383, 16384, 2097150, 268435454, 4294967290):
-        for depth2 in (1, 2):
-            k += 1
-            base = c02.BASE + [8] * depth2
-            lay = [(base + [start + j], ("int", j)) for j in range(6)]
-            first = rec.n
-            sess = rawdrv.RawSession(rec, cfg)
-            w, exc = sess.send("getbulk", [".".join(str(x) for x in base)], maxrep=10)
-            if w is not None:
-                req = ag.Request(cfg, w)
-                sess.inject(agent.reply(cfg, req, lay))
-                sess.recv("getbulk")
-            sess.close()
-            runs.append((first, rec.n, dict(s=list((".".join(str(x) for x in base) + ".%d.." % start).encode()), op="getbulk-rows", cls=0)))
-            chk.case(("rows", start, depth2))
+    for first, last, info in row_runs(rec, cfg, agent):
+        runs.append((first, last, info))
+        chk.case(("rows", bytes(info["s"]).decode()))
     # valid names handed to the PUBLIC API in every container a caller may use (list, tuple, generator, iterator, map, dict view,
     # reversed): "every syntactically valid name is transmitted" holds at the API, not only at the socket
     import asyncio
